@@ -299,7 +299,14 @@ func (p *Path) Call(fn *ssa.Function, args []Value, deferredBy *frame, env []Val
 	if h := p.X.intrinsic(fn); h != nil {
 		return h(p, fn, args)
 	}
-	if h, name := p.X.contract(fn); h != nil {
+	if p.job != nil && p.job.Cfg["stubs"] == 1 && fn.Pkg != nil {
+		// harness-provided contract stub: vStub_<name> replaces <name>
+		if st := fn.Pkg.Func("vStub_" + fn.Name()); st != nil && st != fn {
+			p.X.noteContract("stub:" + fn.Name())
+			return p.Call(st, args, deferredBy, nil)
+		}
+	}
+	if h, name := p.contract(fn); h != nil {
 		basic := name == "decDigits64" || name == "magic.div" || name == "div10W_g"
 		if p.spec > 0 && name != "decDigits64" {
 			// preconditions are obligations: not inside speculation
